@@ -73,7 +73,8 @@ def start_mocking_observations(ctx, sym, mod):
         patch = rec.stub('patch', fn=lambda *a, **k: Obj('patch', target=a[0] if a else None, args=a, kwargs=k))
         fd = symexec.new_fd(sym, mod, calls={'io.StringIO': new_buffer('StringIO'), 'StringIO': new_buffer('StringIO'),
                                              'PrintingStringIO': new_buffer('PrintingStringIO'), 'patch': patch,
-                                             'patch.dict': rec.stub('patch.dict', ret=Obj('patch.dict'))},
+                                             'patch.dict': rec.stub('patch.dict', fn=lambda *a, **k: Obj(
+                                                 'patch', target=a[0] if a else None, args=a, kwargs=k))},
                             extra={'sys.modules': {'sys': 'real-sys'}})
         context_inputs = symexec.marker('context.inputs')
         _, raised = symexec.run(fd, sm, [Obj('context', inputs=context_inputs)], bound_self=me,
@@ -81,8 +82,9 @@ def start_mocking_observations(ctx, sym, mod):
         stack = stack_of(me, 'stdout')
         outs = [e for e in rec.named('patch') if e[1] and e[1][0] == 'sys.stdout']
         installs = [e for e in rec.named('mock_function') if e[1][:1] == ('input',)]
+        started = [a for e in rec.named('_start_patches') for a in e[1]]
         yield '[print=%r]' % (print_setting,), {
-            'raised': raised, 'stack': stack, 'created': created,
+            'raised': raised, 'stack': stack, 'created': created, 'started': started,
             'installs_tracker': raised is None and len(installs) == 1 and len(installs[0][1]) >= 2
             and installs[0][1][1] is tracker and any(e[1][:1] == (context_inputs,)
                                                       for e in rec.named('_track_inputs')),
